@@ -55,8 +55,12 @@ def _work(job):
             return out
         tmo = QUICK_TIMEOUT_MS if tier == "quick" else THOROUGH_TIMEOUT_MS
         groups = {}
+        n_unknown = 0
         for o in obs:
-            discharge(o, tmo)
+            # after two undecided queries in one function the remaining ones get a short budget
+            discharge(o, tmo if n_unknown < 2 else min(tmo, 3000), use_cvc5=(n_unknown < 2))
+            if o.result == "unknown":
+                n_unknown += 1
             g = groups.setdefault(o.oid, {"oid": o.oid, "kind": o.kind, "descr": o.descr, "queries": 0, "result": "discharged",
                                           "backends": set(), "time": 0.0, "reason": "", "exact": True, "replay": None,
                                           "lineno": o.lineno})
@@ -82,6 +86,17 @@ def _work(job):
                     g["replay"] = {"status": "error", "detail": f"{type(ex).__name__}: {ex}",
                                    "trace": traceback.format_exc(limit=4)}
             g["backends"] = sorted(g["backends"])
+        # undecided obligations: one small-scope native search of the function against its contract
+        und = [g for g in groups.values() if g["result"] == "unknown" and g["kind"] != "cover"]
+        if und and kind == "fn":
+            try:
+                rp_ = try_replay(e, mod, target, kind, None, seed)
+            except Exception as ex:  # noqa: BLE001
+                rp_ = {"status": "error", "detail": f"{type(ex).__name__}: {ex}"}
+            if rp_.get("status") == "confirmed":
+                und[0]["result"] = "refuted"
+                und[0]["reason"] = "solver undecided; failing input found by small-scope search of the real function"
+                und[0]["replay"] = rp_
         out["obligations"] = list(groups.values())
         out["assumed"] = dict(e.assumed_calls)
         out["info"] = dict(e.fn_info.get(target, {}))
@@ -107,7 +122,7 @@ def try_replay(e, mod, target, kind, ob, seed):
     res = {"status": "none", "attempts": []}
     witness = getattr(mod, "WITNESS", {})
     for key, fn in witness.items():
-        if key in ob.oid:
+        if ob is not None and key in ob.oid:
             try:
                 w = fn()
             except Exception as ex:  # noqa: BLE001
@@ -148,7 +163,7 @@ def try_replay(e, mod, target, kind, ob, seed):
         return info
     # 1. counter-model
     models = []
-    if ob.model is not None:
+    if ob is not None and ob.model is not None:
         try:
             sm = None  # bounded re-solve disabled (quantified bounds time out); decoder truncates instead
         except Exception:  # noqa: BLE001
